@@ -263,8 +263,18 @@ def atom(rng, profile="all") -> str:
         if k < 0.88:
             return f"python_full_version ~= {q(rng.choice([v for v in PFV if v.count('.') >= 1]))}"
         return f"python_full_version {rng.choice(['==', '!='])} {q(rng.choice(['3.8.*', '3.*', '3.10.*']))}"
-    if r < 0.88:
+    if r < 0.86:
         return f"platform_release {rng.choice(CMP)} {q(rng.choice(REL))}"
+    if r < 0.88:
+        # implementation_version: evaluated as a version, specifier view a string comparison (fixed defect D24): never merged
+        v = rng.choice(["3.8", "3.8.0", "3.9.1", "3.10", "7.3.11"])
+        k = rng.random()
+        if k < 0.6:
+            return f"implementation_version {rng.choice(CMP)} {q(v)}"
+        if k < 0.8:
+            return f"{q(v)} {rng.choice(CMP)} implementation_version"
+        return rng.choice([f'{q(rng.choice(["3.8.*", "3.*"]))} {rng.choice(["==", "!="])} implementation_version',
+                           f'implementation_version {rng.choice(["==", "!="])} {q(rng.choice(["3.8.*", "3.*"]))}'])
     if r < 0.97 or profile == "noextras":
         return f"extra {rng.choice(['==', '!='])} {q(rng.choice(EXTRAS))}"
     return f"{q(rng.choice(EXTRAS))} {rng.choice(['in', 'not in'])} {rng.choice(['extras', 'dependency_groups'])}"
